@@ -40,7 +40,7 @@ def generate(rng, tier):
                               "pathkind": rng.choice(["std", "std", "odd_ext", "pathlib", "dotted"]), "same_handle": rng.random() < 0.3})
     if rng.random() < 0.25:
         for c in spec["cases"]:
-            c["fault"] = rng.choice([{"enospc_after": rng.randint(0, 2500)}, {"eio_after": rng.randint(0, 2500)}, {"crash": "lost"},
+            c["fault"] = rng.choice([{"enospc_after": rng.randint(0, 2500)}, {"eio_after": rng.randint(0, 2500)}, {"enospc_at_close": rng.choice([0.0, 0.5, 1.0])}, {"crash": "lost"},
                                      {"crash": "torn", "torn_at": rng.randint(1, 2000)}])
     return spec
 
